@@ -93,6 +93,14 @@ class C09(vlib.Check):
             self.count("db-equality")
             yield {"t": "dbeq", "kind": kind, "bits": bits, "n": rng.randint(1, 6), "seed": rng.randrange(10 ** 6),
                    "reads": [rng.choice(["absent", "absent", "name", "index", "iter", "subset-absent", "contains", "density", "eq"]) for _ in range(rng.randint(1, 4))]}
+        # fingerprints that have already taken part in comparisons (whatever an implementation memoises then travels with them):
+        # edited in place through `indices` and compared again; pickled and compared in another interpreter process (another hash
+        # salt) with fingerprints built there; small ones and ones with hundreds of on-bits
+        import random
+        r2 = random.Random(self.seed * 15485863 + 9)      # (own stream)
+        for k in range(6 if self.tier == "quick" else 60):
+            self.count("compared-before:other-process")
+            yield {"t": "xproc", "non": [300, 20, 1000, 256, 257, 5][k % 6], "bits": r2.choice([2 ** 20, 2 ** 32]), "seed": r2.randrange(10 ** 6), "hashseed": r2.randrange(1, 1000)}
         for _ in range(n):
             f = gen_fp(rng, bits=rng.choice([1, 8, 32, 1024, 2 ** 20, 2 ** 32]), maxn=10)
             vs = variants(rng, f)
@@ -119,7 +127,7 @@ class C09(vlib.Check):
     # ------------------------------------------------------------------
     def impl(self, case):
         t = case["t"]
-        if t == "dbeq":
+        if t in ("dbeq", "xproc"):
             return {"ok": "see prop"}
         if t == "pair":
             a, b = make_fp(case["a"]), make_fp(case["b"])
@@ -141,7 +149,7 @@ class C09(vlib.Check):
 
     def model_ops(self, case):
         t = case["t"]
-        if t == "dbeq":
+        if t in ("dbeq", "xproc"):
             return [{"op": "fpr.hash", "words": []}]
         def m(spec):
             # the model's level is an integer: `None` is sent as a level no fingerprint uses (it equals only itself)
@@ -159,7 +167,7 @@ class C09(vlib.Check):
 
     def model_answer(self, case, answers):
         t = case["t"]
-        if t == "dbeq":
+        if t in ("dbeq", "xproc"):
             return {"ok": "see prop"}
         if t == "pair":
             return dict(zip(["eq", "ne", "eq_rev", "ne_rev"], answers))
@@ -232,6 +240,8 @@ class C09(vlib.Check):
         t = case["t"]
         if t == "dbeq":
             return self._prop_dbeq(case)
+        if t == "xproc":
+            return self._prop_xproc(case)
         if t == "pair":
             a, b = case["a"], case["b"]
             same_family = (a["kind"] == "bit") == (b["kind"] == "bit")
@@ -407,6 +417,64 @@ class C09(vlib.Check):
             if (dump_fp(c2), dict(c2.props)) != before2:
                 return {"key": "copy-shares-state-reverse:%s" % case["how"], "what": "mutating the original changed the copy"}
             return None
+
+    def _prop_xproc(self, case):
+        import os
+        import pickle
+        import subprocess
+        import tempfile
+        import numpy as np
+        r = np.random.RandomState(case["seed"])
+        idx = np.sort(r.choice(min(case["bits"], 2 ** 24), size=case["non"], replace=False)).astype(np.int64)
+        objs = {}
+        for kind in KINDS:
+            kw = {} if kind == "bit" else {"counts": {int(i): (1 + int(i) % 7) if kind == "count" else 0.5 + (int(i) % 5) for i in idx}}
+            a = CLS[kind].from_indices(idx, bits=case["bits"], level=5, **kw)
+            b = CLS[kind].from_indices(idx.copy(), bits=case["bits"], level=5, **kw)
+            if not (a == b) or (a != b):
+                return {"key": "eq-wrong:rebuilt:%s" % kind, "what": "two %s fingerprints built from the same %d indices do not compare equal" % (kind, len(idx))}
+            objs[kind] = (a, b)
+        # (1) in place: the bit fingerprint's first index replaced through the public array, after it was compared
+        a, b = objs["bit"]
+        free = next(v for v in range(int(idx[0]) + 1) if v not in set(idx[:2].tolist())) if idx[0] > 0 else None
+        if free is not None:
+            a.indices[0] = free
+            c = CLS["bit"].from_indices(a.indices.copy(), bits=case["bits"], level=5)
+            if not (a == c) or (a != c) or (a == b) or not (a != b):
+                return {"key": "eq-wrong:after-inplace-edit", "what": "a bit fingerprint of %d on-bits compared, then edited in place (indices[0] = %d): == with a fresh fingerprint of its content is %s, == with its former equal is %s" % (
+                    len(idx), free, a == c, a == b)}
+            a.indices[0] = idx[0]
+        # (2) another process
+        d = tempfile.mkdtemp(prefix="c09x_", dir=vlib.WORK)
+        try:
+            with open(os.path.join(d, "objs.pkl"), "wb") as f:
+                pickle.dump({k: v[0] for k, v in objs.items()}, f)
+            child = (
+                "import sys, pickle, json\n"
+                "sys.path.insert(0, %r)\n"
+                "from e3fp.fingerprint import fprint as F\n"
+                "objs = pickle.load(open(%r, 'rb'))\n"
+                "bad = []\n"
+                "for kind, x in objs.items():\n"
+                "    cls = x.__class__\n"
+                "    kw = {} if kind == 'bit' else {'counts': dict(x.counts)}\n"
+                "    y = cls.from_indices(x.indices.copy(), bits=x.bits, level=x.level, **kw)\n"
+                "    z = cls.from_fingerprint(x)\n"
+                "    if not (x == y) or (x != y) or not (y == x): bad.append(kind + ': loaded == rebuilt is %%s, != is %%s' %% (x == y, x != y))\n"
+                "    if not (x == z) or not (z == y): bad.append(kind + ': copy of loaded: x == z %%s, z == y %%s' %% (x == z, z == y))\n"
+                "print(json.dumps(bad))\n") % (os.path.join(vlib.REPO, "src"), os.path.join(d, "objs.pkl"))
+            env = dict(os.environ, PYTHONHASHSEED=str(case["hashseed"]), PYTHONDONTWRITEBYTECODE="1")
+            p = subprocess.run([sys.executable, "-c", child], capture_output=True, text=True, timeout=300, env=env)
+            if p.returncode != 0:
+                return {"key": "eq-raises:other-process", "what": "comparing unpickled fingerprints in another process failed: %s" % p.stderr[-400:]}
+            import json as _json
+            bad = _json.loads(p.stdout.strip().splitlines()[-1])
+            if bad:
+                return {"key": "eq-wrong:other-process", "what": "fingerprints of %d on-bits that had been compared, pickled and loaded in another interpreter process: %s" % (len(idx), "; ".join(bad))}
+        finally:
+            import shutil
+            shutil.rmtree(d, ignore_errors=True)
+        return None
 
     def nontrivial(self, case, a_impl):
         if case["t"] == "pair" and not (case["a"]["idx"] and case["b"]["idx"]):
